@@ -490,24 +490,24 @@ PROPS['C05'] = dict(
           _C05_BOUND + '; ops slice %d/4' % k, env={'VERIF_SLICE': str(k)}) for k in range(4)
     ] + [
         O('C05.crash_multi', 'harness.c05_crash', 'crash_multi', None, 1500,
-          'multi-statement calls (SuggestTrials, CheckTrialEarlyStoppingState, CreateStudy): records readable, ids unique, '
+          'multi-statement calls (SuggestTrials, CheckTrialEarlyStoppingState, CreateStudy for an existing / a new owner): records readable, ids unique, '
           'legal states, clients can continue', _C05_BOUND),
     ] + [
         O('C05.crash_multi_s%d' % k, 'harness.c05_crash', 'crash_multi', 300, 900,
-          'multi-statement calls (SuggestTrials, CheckTrialEarlyStoppingState, CreateStudy): records readable, ids unique, '
+          'multi-statement calls (SuggestTrials, CheckTrialEarlyStoppingState, CreateStudy for an existing / a new owner): records readable, ids unique, '
           'legal states, clients can continue', _C05_BOUND + '; slice %d/6' % k, env={'VERIF_SLICE': str(k)})
-        for k in (0, 1, 2, 4)
+        for k in (0, 1, 2, 4, 5)
     ])
 
 
 _C04_RPCS = ['SuggestTrials_w', 'SuggestTrials_v', 'CreateTrial', 'CompleteTrial', 'AddTrialMeasurement', 'StopTrial',
              'DeleteTrial', 'DeleteStudy', 'UpdateMetadata', 'SetStudyState', 'CreateStudy', 'CheckTrialEarlyStoppingState',
-             'DeleteTrial_requested']
+             'DeleteTrial_requested', 'UpdateMetadata_study', 'CompleteTrial_requested', 'UpdateMetadata_requested']
 PROPS['C04'] = dict(
     level='model_checking',
     encoded=['VizierServicer.* RPCs with their lock tables (_owner_name_to_lock, _study_name_to_lock, _operation_lock)',
              'NestedDictRAMDataStore.*'],
-    bounds='all ordered pairs (A, B) of 13 RPC kinds; A suspended before its k-th datastore operation for every k (0..11), B '
+    bounds='all ordered pairs (A, B) of 16 RPC kinds; A suspended before its k-th datastore operation for every k (0..11), B '
            'runs until it finishes or blocks, A resumes; executed with two real threads; compared with A;B and B;A; '
            'all ordered triples of 8 RPC kinds likewise (B then C started while A is suspended; 6 serial orders)',
     outside='more than one preemption; four or more concurrent calls, triples outside the 8-kind menu; pre-states other than the stated one',
@@ -515,7 +515,7 @@ PROPS['C04'] = dict(
     obligations=[
         O('C04.pair_a%d' % i, 'harness.c04_schedules', 'pair', 240, 900,
           'A = %s against every B and every preemption point: outcome serialisable, no deadlock' % n,
-          'B over 13 RPC kinds, k in 0..11', env={'VERIF_SLICE': str(i)}, no_validate=True)
+          'B over 16 RPC kinds, k in 0..11', env={'VERIF_SLICE': str(i)}, no_validate=True)
         for i, n in enumerate(_C04_RPCS)
     ] + [
         O('C04.triple_a%d' % i, 'harness.c04_schedules', 'triple', 300, 900,
@@ -683,7 +683,7 @@ PROPS['C02']['obligations'].append(
 PROPS['C04']['obligations'] += [
     O('C04.pair_sql_a%d' % i, 'harness.c04_schedules', 'pair', None, 900,
       'same schedules on the SQL datastore (in-memory sqlite, one shared connection): A = %s' % n,
-      'B over 13 RPC kinds, k in 0..11', env={'VERIF_SLICE': str(i), 'VERIF_C04_SQL': '1'}, no_validate=True)
+      'B over 16 RPC kinds, k in 0..11', env={'VERIF_SLICE': str(i), 'VERIF_C04_SQL': '1'}, no_validate=True)
     for i, n in enumerate(_C04_RPCS)
 ]
 PROPS['C04']['outside'] = 'more than one preemption; four or more concurrent calls, triples outside the 8-kind menu; pre-states other than the stated one'
@@ -736,7 +736,7 @@ PROPS['C20'] = dict(
         O('C20.multiobjective_value', 'harness.c20_experimenters', 'multiobjective_value', 100, 300,
           'MultiObjectiveNumpyExperimenter names the values after the statement\'s metrics, in order', env=_FF),
         O('C20.normalizing_order', 'harness.c20_experimenters', 'normalizing_order', 200, 600,
-          'normalising keeps the order (and equality) of any two objective values, for 3 normalisation profiles', env=_FF),
+          'normalising keeps the order (and equality) of any two objective values, for 3 normalisation profiles of 100 samples and for 1 and 2 samples', env=_FF),
         O('C20.discretizing', 'harness.c20_experimenters', 'discretizing', 300, 900,
           'discretising evaluates the base objective at float(value) of the chosen feasible value, other parameters '
           'untouched, suggestion restored with its original type; statement lists the values', env=_FF),
@@ -762,6 +762,13 @@ PROPS['C20'] = dict(
         O('C20.contract', 'harness.c20_experimenters', 'contract', 300, 900,
           'every kind: each trial of a batch is completed with finite values for all metrics of the statement or marked '
           'infeasible, parameters (values and types) as suggested, batch == one-at-a-time', '18 kinds x batch 0..3 x 3 points'),
+        O('C20.built_from_copy', 'harness.c20_experimenters', 'built_from_copy', 100, 300,
+          'editing the problem statement an experimenter was BUILT from (after construction) changes neither its statement '
+          'nor its evaluation nor wrappers built later', 'NumpyExperimenter / MultiObjectiveNumpyExperimenter x 3 edits'),
+        O('C20.factory_independent', 'harness.c20_experimenters', 'factory_independent', 200, 600,
+          'two experimenters made by one seeded SingleObjectiveExperimenterFactory (noise x normalisation) are independent and '
+          'reproduce the stream of a fresh factory, whatever was evaluated on the first in between',
+          '3 noise settings x 3 seeds / normalisation sample counts (0, 5, 1) x 0..3 evaluations in between'),
         O('C20.by_value', 'harness.c20_experimenters', 'by_value', 200, 600,
           'every kind: editing a returned problem statement (parameter, metric, goals, metadata) changes neither the next '
           'statement nor the evaluation', '18 kinds x 3 edits'),
